@@ -23,12 +23,13 @@ static int should_fail(void)
 }
 static void track(void *p, size_t len, int kind) { if (nbl < MAXBLK) { BL[nbl].p = p; BL[nbl].len = len; BL[nbl].kind = kind; BL[nbl].freed = 0; nbl++; } }
 void *__real_malloc(size_t); void *__real_calloc(size_t, size_t); void __real_free(void *); int __real_posix_memalign(void **, size_t, size_t);
+static int inj_errno = ENOMEM;      /* the error an injected failure reports: allocation and mapping calls can fail for other reasons than lack of memory (mmap: EAGAIN with locked-memory limits, EPERM, ENFILE; malloc: any) */
 void *__real_mmap(void *, size_t, int, int, int, off_t); int __real_munmap(void *, size_t);
-void *__wrap_malloc(size_t n) { void *p; if (!armed) return __real_malloc(n); if (should_fail()) { errno = ENOMEM; return NULL; } p = __real_malloc(n); track(p, n, 0); return p; }
-void *__wrap_calloc(size_t a, size_t b) { void *p; if (!armed) return __real_calloc(a, b); if (should_fail()) { errno = ENOMEM; return NULL; } p = __real_calloc(a, b); track(p, a * b, 0); return p; }
-int __wrap_posix_memalign(void **o, size_t al, size_t n) { int r; if (!armed) return __real_posix_memalign(o, al, n); if (should_fail()) return ENOMEM; r = __real_posix_memalign(o, al, n); if (r == 0) track(*o, n, 0); return r; }
+void *__wrap_malloc(size_t n) { void *p; if (!armed) return __real_malloc(n); if (should_fail()) { errno = inj_errno; return NULL; } p = __real_malloc(n); track(p, n, 0); return p; }
+void *__wrap_calloc(size_t a, size_t b) { void *p; if (!armed) return __real_calloc(a, b); if (should_fail()) { errno = inj_errno; return NULL; } p = __real_calloc(a, b); track(p, a * b, 0); return p; }
+int __wrap_posix_memalign(void **o, size_t al, size_t n) { int r; if (!armed) return __real_posix_memalign(o, al, n); if (should_fail()) return inj_errno == EAGAIN ? ENOMEM : inj_errno;   /* posix_memalign only documents EINVAL / ENOMEM */ r = __real_posix_memalign(o, al, n); if (r == 0) track(*o, n, 0); return r; }
 void *__wrap_mmap(void *a, size_t l, int pr, int fl, int fd, off_t off)
-{ void *p; if (!armed) return __real_mmap(a, l, pr, fl, fd, off); if (should_fail()) { errno = ENOMEM; return MAP_FAILED; } p = __real_mmap(a, l, pr, fl, fd, off); if (p != MAP_FAILED) track(p, l, 1); return p; }
+{ void *p; if (!armed) return __real_mmap(a, l, pr, fl, fd, off); if (should_fail()) { errno = inj_errno; return MAP_FAILED; } p = __real_mmap(a, l, pr, fl, fd, off); if (p != MAP_FAILED) track(p, l, 1); return p; }
 void __wrap_free(void *p)
 {
     int i;
@@ -124,7 +125,7 @@ static int run_script(const scen *S, const int *singles, int ns, int from, int *
     /* 2. the faulty run */
     for (i = 0; i < ns; i++) snprintf(scr + strlen(scr), sizeof scr - strlen(scr), "%s%d", i ? "," : "", singles[i]);
     if (from) snprintf(scr + strlen(scr), sizeof scr - strlen(scr), "%d..", from);
-    snprintf(key, sizeof key, "alloc-fault/%s/fail=%s", S->name, scr);
+    snprintf(key, sizeof key, "alloc-fault/%s/fail=%s%s", S->name, scr, inj_errno == ENOMEM ? "" : inj_errno == EAGAIN ? "/errno=EAGAIN" : inj_errno == EPERM ? "/errno=EPERM" : inj_errno == ENFILE ? "/errno=ENFILE" : "/errno=EINVAL");
     memset(obs, 0, sizeof obs); if (S->kind == 0) memset(obs, 0x5a, 64);
     nbl = 0; req_no = 0; nfail_single = ns; memcpy(fail_single, singles, sizeof(int) * (size_t) ns); fail_from = from; inj_hits = bad_free = double_free = bad_unmap = 0;
     errno = 0; armed = 1; r = S->run(obs); armed = 0; nfail_single = 0; fail_from = 0;
@@ -163,7 +164,7 @@ static int child_exec(const scen *S, const int *singles, int ns, int from, int *
     if (!(WIFEXITED(st) && WEXITSTATUS(st) == 0)) {
         char key[200], scr[48] = ""; int i; for (i = 0; i < ns; i++) snprintf(scr + strlen(scr), sizeof scr - strlen(scr), "%s%d", i ? "," : "", singles[i]);
         if (from) snprintf(scr + strlen(scr), sizeof scr - strlen(scr), "%d..", from);
-        snprintf(key, sizeof key, "alloc-fault/%s/fail=%s", S->name, scr[0] ? scr : "none");
+        snprintf(key, sizeof key, "alloc-fault/%s/fail=%s%s", S->name, scr[0] ? scr : "none", inj_errno == ENOMEM ? "" : inj_errno == EAGAIN ? "/errno=EAGAIN" : inj_errno == EPERM ? "/errno=EPERM" : inj_errno == ENFILE ? "/errno=ENFILE" : "/errno=EINVAL");
         vf_fail(key, "process crashed or hung (wait status %#x) when allocation request(s) %s failed", st, scr[0] ? scr : "none");
     }
     return st;
@@ -177,6 +178,9 @@ static void do_scen(long si)
     n_requests_seen += (unsigned long long) n;
     printf("INFO %s: %d allocation requests\n", S->name, n);
     for (i = 1; i <= n; i++) { one[0] = i; child_exec(S, one, 1, 0, NULL); child_exec(S, NULL, 0, i, NULL); }
+    { static const int ERRS[4] = { EAGAIN, EPERM, ENFILE, EINVAL }; int e;      /* every single position again with each other error code */
+      for (e = 0; e < 4; e++) { inj_errno = ERRS[e]; for (i = 1; i <= n; i++) { one[0] = i; child_exec(S, one, 1, 0, NULL); } }
+      inj_errno = ENOMEM; }
     for (i = 1; i <= n; i++) for (j = i + 1; j <= n; j++) { one[0] = i; one[1] = j; child_exec(S, one, 2, 0, NULL); }
     if (thorough) for (i = 1; i <= n; i++) for (j = i + 1; j <= n; j++) for (k = j + 1; k <= n; k++) { one[0] = i; one[1] = j; one[2] = k; child_exec(S, one, 3, 0, NULL); }
 }
